@@ -12,7 +12,7 @@ ASSUMPTIONS = ["reference AES written from FIPS-197, self-tested against FIPS-19
 NSHARDS = {"quick": 16, "thorough": 32}
 BUDGET_S = {"quick": 200, "thorough": 1500}
 MIN_HITS = {
-    'quick': {"enc": 542, "dec": 542, "ctr_carry": 44, "bad_pad": 320, "bad_len": 2209},
+    'quick': {"enc": 542, "dec": 542, "ctr_carry": 44, "bad_pad": 896, "bad_len": 2209},
     'thorough': {"enc": 9196, "dec": 9196, "ctr_carry": 384, "bad_pad": 7680, "bad_len": 2016},
 }
 MODES = {"128cbc": 16, "256cbc": 32, "128ctr": 16, "256ctr": 32}
@@ -139,6 +139,12 @@ def cases(ctx):
         iv = gen.rbytes(r, 16)
         yield {"k": "seq", "mode": mode, "keys": [x.hex() for x in fam], "iv": iv.hex(), "msg": gen.rbytes(r, r.choice([1, 16, 33, 64])).hex(), "same_iv": True}
         yield {"k": "seq", "mode": mode, "keys": [x.hex() for x in fam[::-1]], "iv": iv.hex(), "msg": gen.rbytes(r, 20).hex(), "same_iv": False}
+    # CBC chaining by the caller: the IV of each call is the last ciphertext block of the previous call on the same thread
+    for mode in ("128cbc", "256cbc"):
+        k += 1
+        if k % N != S and not t:
+            continue
+        yield {"k": "chain", "mode": mode, "key": gen.rbytes(r, MODES[mode]).hex(), "iv": gen.rbytes(r, 16).hex(), "msgs": [gen.rbytes(r, r.choice([0, 5, 16, 40])).hex() for _ in range(5)]}
     # CBC rejection cases
     for mode in ("128cbc", "256cbc"):
         for L in (0, 1, 15, 16, 17, 31, 32, 47):
@@ -216,6 +222,23 @@ def judge(ctx, case):
         want = {"len": len(exp), "sha256": hashlib.sha256(exp).hexdigest(), "sum": sum(exp), "head": exp[:32].hex(), "tail": exp[-32:].hex()}
         if o != want:
             ctx.viol("%s ciphertext of a long message differs from the reference (%s)" % (mode, "length" if not isinstance(o, dict) or o.get("len") != want["len"] else "head" if o.get("head") != want["head"] else "later blocks"), {"len": n, "got": str(o)[:300], "want": str(want)[:300]})
+    elif k == "chain":
+        ctx.hit("caller_chained_iv")
+        ctx.nontrivial()
+        ivj = iv
+        for j, mh in enumerate(case["msgs"]):
+            mj = bytes.fromhex(mh)
+            r = ctx.call({"op": "aes", "mode": mode, "dir": "enc", "key": case["key"], "iv": ivj.hex(), "msg": mh})
+            ctx.ev()
+            exp = aes.cbc_encrypt(key, ivj, mj)
+            if r.get("ok") != exp.hex():
+                ctx.viol("%s ciphertext differs from the reference when the IV is the last ciphertext block of the previous call (call %s)" % (mode, "1" if j == 0 else ">=2"), {"j": j, "got": str(r.get("ok", r.get("err")))[:100], "exp": exp.hex()[:100]})
+                return
+            r2 = ctx.call({"op": "aes", "mode": mode, "dir": "dec", "key": case["key"], "iv": ivj.hex(), "msg": r["ok"]})
+            ctx.ev()
+            if r2.get("ok") != mh:
+                ctx.viol("%s decrypt(encrypt(m)) != m in a caller-chained sequence" % mode, {"j": j})
+            ivj = exp[-16:]
     elif k == "seq":
         m = bytes.fromhex(case["msg"])
         ctx.hit("key_sequence")
@@ -250,6 +273,22 @@ def judge(ctx, case):
             blk = bytearray(body[:-n] + bytes([n]) * n)
             blk[len(blk) - n + rr.randrange(n - 1)] ^= rr.randrange(1, 256)
             tails.append(bytes(blk))
+        # says n, but TWO (or three) of the n bytes are wrong in ways that keep their sum / xor / product-of-counts unchanged
+        for n in range(3, 17):
+            blk = bytearray(body[:-n] + bytes([n]) * n)
+            i1, i2 = rr.sample(range(len(blk) - n, len(blk) - 1), 2)
+            d = rr.randrange(1, n + 1)
+            blk[i1] = (n + d) & 0xFF
+            blk[i2] = (n - d) & 0xFF
+            tails.append(bytes(blk))  # sum preserved
+            blk = bytearray(body[:-n] + bytes([n]) * n)
+            blk[i1] ^= 0x40
+            blk[i2] ^= 0x40
+            tails.append(bytes(blk))  # xor preserved
+        # padding runs LONGER than a block (17..255 bytes of that value, spanning several blocks) are not PKCS#7 for a 16-byte block
+        for n in (17, 18, 31, 32, 33, 48, 64, 255):
+            tot = ((n + 15) // 16) * 16 + 16
+            tails.append(rr.getrandbits(8 * (tot - n)).to_bytes(tot - n, "big") + bytes([n]) * n)
         for p in tails:
             if aes.cbc_decrypt(key, iv, aes.cbc_encrypt_raw(key, iv, p)) is not None:
                 continue  # accidentally valid padding
